@@ -672,7 +672,7 @@ def u_to_euler(U_matrix):
     if CHECKS.activated: checks._check_rotation_matrix(U)
 
     tol = 1e-8
-    PHI = np.arccos(U[2, 2])
+    PHI = np.arccos(np.clip(U[2, 2], -1, 1))
     if np.abs(PHI)<tol:
         phi1 = _arctan2(-U[0, 1], U[0, 0])
         phi2 = 0
